@@ -13,6 +13,16 @@ import (
 	"github.com/rs/zerolog/zzverif/vsched"
 )
 
+// LastBroadcastWoke: per managed goroutine, how many registered waiters its most recent Cond.Broadcast woke
+// (0 = the broadcast found nobody waiting). Players reset it per script; used only for known-finding signatures.
+var LastBroadcastWoke = map[string]int{}
+
+// LastBroadcastBy / LastBroadcastN: the goroutine of the most recent Broadcast of all and how many waiters it woke.
+var (
+	LastBroadcastBy string
+	LastBroadcastN  int
+)
+
 type Locker = sync.Locker
 
 // Once and WaitGroup are not scheduling points in zerolog; keep the real ones.
@@ -90,6 +100,8 @@ func (c *Cond) Broadcast() {
 		return
 	}
 	vsched.Gate("cond.bcast", nil, func() {
+		LastBroadcastWoke[vsched.Current()] = len(c.waiters)
+		LastBroadcastBy, LastBroadcastN = vsched.Current(), len(c.waiters)
 		for _, w := range c.waiters {
 			w.signalled = true
 		}
